@@ -288,8 +288,15 @@ func checkDoTrafficRouting(c *Ctx, fn *ssa.Function) {
 			continue
 		}
 		nw++
+		// a helper that reports through a boolean result whether it wrote: its `false` means no write happened
+		noWrite := []FactM{}
+		if callee := w.Common().StaticCallee(); callee != nil {
+			if i, ok := writeReportedBy(callee); ok {
+				noWrite = append(noWrite, FFalse(MResultOf(w, i)))
+			}
+		}
 		reach, _ := CanReachCP(PointAfter(w.(ssa.Instruction)), isER, ReachOpts{CutEdge: func(b *ssa.BasicBlock, k int) bool {
-			return EdgeFactMatches(b, k, FNotNil(MResultOf(w, -1)))
+			return EdgeFactMatches(b, k, FOr(append([]FactM{FNotNil(MResultOf(w, -1))}, noWrite...)...))
 		}})
 		c.Ob("R3.2", "DoTrafficRouting#no-routes-after("+shortCallee(w)+")", w.Pos(), !reach, "a Service create/patch ends the pass (grace wait) before routes are written",
 			ifs(reach, "EnsureRoutes reachable in the same pass after the successful write"))
@@ -299,7 +306,7 @@ func checkDoTrafficRouting(c *Ctx, fn *ssa.Function) {
 	}
 	// done results
 	for _, ret := range returnsOf(fn) {
-		for _, lf := range Leaves(ret.Results[0], ret.Block()) {
+		for _, lf := range BoolLeaves(ret.Results[0], ret.Block()) {
 			t := TermOf(lf.V)
 			if t.Op != "const" {
 				c.Ob("R3.2", "DoTrafficRouting#return(non-constant)", ret.Pos(), false, "done result is not a constant", "undecided: "+t.String())
@@ -374,4 +381,39 @@ func checkVerifiedMeansUnchangedAs(c *Ctx, rule string, fn *ssa.Function, exempt
 	if n == 0 {
 		c.Ob(rule, name+"#writes", fn.Pos(), false, "route writes of this provider", "anchor not found: no write site / reporting helper recognised in this EnsureRoutes implementation")
 	}
+}
+
+// writeReportedBy: callee has a boolean result that is the constant true on every return reachable
+// after one of its client writes succeeded. Its value false in the caller then means "nothing was written".
+func writeReportedBy(callee *ssa.Function) (int, bool) {
+	if callee == nil || callee.Blocks == nil {
+		return 0, false
+	}
+	res := callee.Signature.Results()
+	for i := 0; i < res.Len(); i++ {
+		b, ok := res.At(i).Type().Underlying().(*types.Basic)
+		if !ok || b.Kind() != types.Bool {
+			continue
+		}
+		writes := 0
+		good := true
+		for _, ci := range AllCalls(callee) {
+			if _, isW := isClientWrite(ci); !isW {
+				continue
+			}
+			writes++
+			for _, r := range WalkCP(PointAfter(ci.(ssa.Instruction)), nil, IsReturn, ReachOpts{CutEdge: func(b *ssa.BasicBlock, k int) bool {
+				return EdgeFactMatches(b, k, FNotNil(MResultOf(ci, -1)))
+			}}) {
+				ret := r.Instr.(*ssa.Return)
+				if v, isC := ResolveConst(ret.Results[i], r.Env); !isC || v != "true" {
+					good = false
+				}
+			}
+		}
+		if writes > 0 && good {
+			return i, true
+		}
+	}
+	return 0, false
 }
